@@ -22,6 +22,7 @@ func main() {
 	all := flag.Bool("all", false, "verify all functions under contract")
 	sweep := flag.String("sweep", "", "zero-annotation safety sweep over functions matching substring")
 	replay := flag.String("replay", "", "re-run a stored replay file")
+	outDir := flag.String("outdir", "", "directory for evidence/ and replays/ (default: the verif directory)")
 	flag.Parse()
 
 	t0 := time.Now()
@@ -60,7 +61,10 @@ func main() {
 		os.Exit(replayFile(*repo, *verifDir, *replay))
 	}
 	if *prop != "" {
-		os.Exit(runProperty(p, *prop, *tier, cfg, *verifDir))
+		if *outDir == "" {
+			*outDir = *verifDir
+		}
+		os.Exit(runProperty(p, *prop, *tier, cfg, *verifDir, *outDir))
 	}
 	var targets []string
 	switch {
